@@ -108,7 +108,9 @@ def _baseline(w):
     n = len(w["calls"])
     first = [_solo(w, i) for i in range(n)]
     second = [_solo(w, i) for i in range(n)]
-    b = {"solo": first, "stable": canon(first) == canon(second), "steps": None, "expl": {}}
+    b = {"solo": first, "stable": canon(first) == canon(second), "steps": None, "expl": {},
+         # no pandera call is in flight here: a pandera lock that is held now was leaked by one of the solo calls
+         "held_after_solo": [list(x) for x in sched.held_pandera_locks()]}
     _BASE_CACHE[key] = b
     return b
 
@@ -116,6 +118,8 @@ def _baseline(w):
 def _steps(w):
     """Yield points per thread of the sequential execution (after the warm-up done by the baseline)."""
     b = _baseline(w)
+    if b["steps"] is None and b["held_after_solo"]:
+        b["steps"] = [2] * len(w["calls"])  # (evaluate reports the leaked lock; a traced run would only stall on it)
     if b["steps"] is None:
         _reset_config()
         objs = work.Objects(w)
@@ -293,7 +297,13 @@ def evaluate(case):
     ev.labels.append("expect=independent" if feats["expect_independent"] else "expect=known-race-class")
     ev.labels.append(f"threads={n}")
 
+    held0 = sched.held_pandera_locks()
     base = _baseline(w)
+    if held0 or base["held_after_solo"]:
+        # between evaluations nothing of pandera is running in this process: a held lock was leaked by a finished call
+        ev.add("lock-left-held-by-finished-call", {"locks": [list(x) for x in held0] or base["held_after_solo"],
+                                                   "solo": [work.brief(x) for x in base["solo"]]})
+        return ev
     if not base["stable"]:
         ev.skipped = "solo-outcome-not-reproducible"
         return ev
@@ -307,9 +317,17 @@ def evaluate(case):
     r = sched.Sched(fns, schedule, probe=objs.probe, lines=bool(case.get("lines"))).run()
     cfg_after = fp.config_state()
     _reset_config()
+    if r.status == "deadlock":
+        # not a time budget: the lock's holder has finished, so the stalled call can never proceed
+        ev.add("deadlock:lock-left-held-by-finished-call", {"why": r.why, "locks": [list(x) for x in r.held_locks],
+                                                            "results": [work.brief(work.normalise(x)) if x else None
+                                                                        for x in r.results]})
+        return ev
     if r.status != "ok":
         ev.skipped = "inconclusive-watchdog"
         return ev
+    if r.held_locks:
+        ev.add("lock-left-held-after-all-calls-finished", {"locks": [list(x) for x in r.held_locks]})
     if case.get("lines"):
         ev.labels.append("granularity=line")
 
@@ -429,6 +447,8 @@ def _call(s, form, cols, **kw):
          "ctx": None}
     if "index" in kw:
         c["data"]["index"] = kw.pop("index")
+    if "mindex" in kw:
+        c["data"]["mindex"] = kw.pop("mindex")
     c.update(kw)
     return c
 
@@ -465,6 +485,24 @@ def fixed_workloads():
     ], [
         _call(0, "pd", {"a": ["1", "2"], "zz": [1, 2]}, index=[0, 1], lazy=True),
         _call(0, "pd", {"a": [5, 6], "b": ["x", "y"]}, index=[3, -4]),
+    ]))
+    # one MultiIndex schema shared by frames whose level names repeat (validated under per-call renamed level schemas)
+    # and frames with ordinary level names
+    W.append(_wl("pd-shared-noop/multiindex-dup-level-names", [
+        _schema("pd", [_col("x")], entry="mindex",
+                mindex={"levels": [{"dt": "int64", "name": "a", "checks": [["ge", 0]]}, {"dt": "int64", "name": None}]}),
+    ], [
+        _call(0, "pd", {"x": [1, 2]}, mindex={"arrays": [[1, 2], [1, 2], [3, 4]], "names": ["a", "a", None]}),
+        _call(0, "pd", {"x": [5, 6]}, mindex={"arrays": [[-1, 2], [3, 4]], "names": ["a", None]}, lazy=True),
+    ]))
+    # a model whose definition is broken (its first use raises SchemaInitError) next to a healthy model nobody has
+    # compiled yet: the failing compilation must not keep anything (a lock, a half-built cache entry) from the other
+    W.append(_wl("pd-distinct/model-broken+model-cold", [
+        dict(_schema("pd", [_col("a")]), model=True, broken=True),
+        dict(_schema("pd", [_col("a", checks=gt0)], strict=True), model=True),
+    ], [
+        _call(0, "pd", {"a": [1, 2]}),
+        _call(1, "pd", {"a": [1, -2]}, lazy=True),
     ]))
     # ---- classes that contain the trigger of a recorded defect
     W.append(_wl("pd-shared-override/column-coerce", [_schema("pd", [_col("a", coerce=True)])], [
@@ -548,7 +586,7 @@ def fixed_workloads():
     return W
 
 
-QUICK = 7
+QUICK = 9
 
 
 def _tier_workloads(tier):
